@@ -154,6 +154,62 @@ def laws(ivs, times, rng, budget):
     return n, len(nontriv), fails, known
 
 
+def acc_one(grouped, seq):
+    import mosaik
+    from mosaik.scenario import connect_interval
+    from .. import simlib        # (silences mosaik's logger)
+    slots = [('po', 'i'), ('eo', 'ti'), ('e2', 't2'), ('po', 't2')]
+    w = mosaik.World({'S': {'python': 'harness.simlib:GSim'}}, skip_greetings=True)
+    try:
+        if grouped:
+            with w.group():
+                a = w.start('S', sim_id='S0', beh={'type': 'hybrid'}).M(); b = w.start('S', sim_id='S1', beh={'type': 'hybrid'}).M()
+        else:
+            a = w.start('S', sim_id='S0', beh={'type': 'hybrid'}).M(); b = w.start('S', sim_id='S1', beh={'type': 'hybrid'}).M()
+        ga, gb = a.model_mock._factory._group, b.model_mock._factory._group
+        each = []
+        for (k, sh), (sa, da) in zip(seq, slots):
+            kw = {}
+            if k == 'ts': kw['time_shifted'] = sh
+            if k == 'w': kw['weak'] = True
+            if k != 'p' and da == 'i': kw['initial_data'] = {sa: 0}
+            w.connect(a, b, (sa, da), **kw)
+            each.append(connect_interval(ga, gb, sh if k == 'ts' else 0, 1 if k == 'w' else 0))
+        stored = w.sims['S1'].input_delays[w.sims['S0']]
+        if stored not in each or not all(stored <= d for d in each):
+            return dict(kind='call', law='accumulated_min', grouped=grouped, connections=[list(x) for x in seq],
+                        observed=f'input delay stored for the pair: {stored}; delays of the connections in connect order: {[str(d) for d in each]}')
+    except Exception as e:
+        return dict(kind='call', law='accumulated_min', grouped=grouped, connections=[list(x) for x in seq], observed=f'{type(e).__name__}: {e}'[:200])
+    finally:
+        w.shutdown()
+    return None
+
+
+def accumulated_min(tier):
+    """the minimum over the delays of several connections between one ordered pair (World.connect_one, the anchor
+    'update_min / min over delays'): whatever the order of the connect calls, the delay a consumer waits for must be one
+    of the connections' delays and not larger than any of them - otherwise data on some connection arrives before the
+    time mosaik waits for.  Evaluated on real World.connect calls (flat pair and a pair inside one group)."""
+    import mosaik
+    from mosaik.scenario import connect_interval
+    from .. import simlib        # (silences mosaik's logger)
+    fails = []; n = 0
+    kinds = [('p', 0), ('ts', 1), ('ts', 2), ('ts', 3), ('w', 0)]
+    if tier == 'quick':
+        seqs = list(itertools.permutations(kinds, 2)) + list(itertools.permutations(kinds[:4], 3))
+    else:
+        seqs = [s for k in (2, 3, 4) for s in itertools.permutations(kinds, k)]
+    slots = [('po', 'i'), ('eo', 'ti'), ('e2', 't2'), ('po', 't2')]
+    for grouped in (False, True):
+        for seq in seqs:
+            if not grouped and any(k == 'w' for k, _ in seq): continue
+            n += 1
+            f = acc_one(grouped, seq)
+            if f: fails.append(f)
+    return n, fails
+
+
 def run(out, info, tier, seed):
     rng = random.Random(seed)
     out.checker_cmd = 'python harness/py2coq.py /repo coq/Gen && make -C coq (full .vo build) && coqc -Q coq MV coq/Props/C08.v'
@@ -184,6 +240,8 @@ def run(out, info, tier, seed):
     else:
         out.add_obligation('correspondence: extracted model available', False, info.driver_msg[-300:])
     n, nontriv, fails, known = laws(ivs, times, rng, budget)
+    n_acc, acc_fails = accumulated_min(tier)
+    n += n_acc; fails = fails + acc_fails
     for f in fails[:1]:
         out.violations.append(f)
     kf = {f['id']: f for f in common.known_findings('C08')}
@@ -194,7 +252,7 @@ def run(out, info, tier, seed):
     out.coverage = {'evaluations': n + ncorr, 'distinct_nontrivial': nontriv,
                     'rule': f'all TieredIntervals with length<= {maxlen}, pre<= {maxlen}, tiers in {list(vals)} ({len(ivs)}) and all times of those lengths; '
                             'laws evaluated on every equal-shape pair (triples/compositions sampled to a budget); non-trivial = strictly ordered pair, '
-                            'non-zero delay, or defined composition; correspondence on a seeded sample of pairs',
+                            'non-zero delay, or defined composition; correspondence on a seeded sample of pairs; the minimum over the delays of 2-4 parallel connections of one pair in every connect order (flat and in a group)',
                     'samples': [{'law': 'trichotomy', 'a': list(ivs[len(ivs) // 2]), 'b': list(ivs[len(ivs) // 2 + 1])},
                                 {'correspondence_request': f'g_ilt {s_int(ivs[5])} {s_int(ivs[7])}'}],
                     'traces_validated_against_impl': ncorr, 'exhaustive': True,
@@ -213,6 +271,8 @@ def replay(path, out):
         bad = res == 'assert' or sum(map(bool, res)) != 1
     elif r['law'].startswith('smaller'):
         t = TT(*r['t']); res = (A < B, t + A, t + B); print('a<b, t+a, t+b:', res); bad = res[0] and res[1] > res[2]
+    elif r['law'] == 'accumulated_min':
+        f = acc_one(r['grouped'], [tuple(x) for x in r['connections']]); print(f['observed'] if f else 'stored delay is the minimum'); bad = f is not None
     else:
         print('see law', r['law']); bad = True
     if bad: print(f'VIOLATION property=C08 replay={path}')
